@@ -117,8 +117,24 @@ def reach_with_const(b, start, local, value):
     return seen
 
 
+def header_fields(ctx, P):
+    """Container header fields (cipher, AEAD mode, chunk size, salt) are bound into key derivation / AD only if a malformed
+    value is an error: the config parsers must not default or swallow a field's parse error."""
+    from rules import errs
+    n = 0
+    for p, r in sorted(ctx.f.bodies.items()):
+        if re.search(r'packet::(sym_encrypted_protected_data|gnupg_aead)::\w*Config::try_from_reader$|packet::sym_encrypted_protected_data::Config::try_from_reader$', p):
+            b = ctx.wrap(r)
+            n += 1
+            d = errs.discards(b)
+            ctx.check('%s:header:no-defaulted-field:%s' % (P, p), 'R-err', 'no header field of %s is defaulted on a parse error (an out-of-range chunk size / algorithm octet is rejected)' % p.split('::')[-2],
+                      not d, function=p, missing=['%s of %s' % (form, fn.split('::')[-1]) for i, form, fn in d] or None)
+    ctx.floor(P + ':header:floor', 'SEIPD / GnuPG-AEAD config parsers', n, 1)
+
+
 def run(ctx):
     P = 'C03'
+    header_fields(ctx, P)
     seipdv1(ctx, P)
     seipdv2(ctx, P)
     primitive(ctx, P)
